@@ -383,6 +383,49 @@ def special_population_case(case):
             env.add_agent(a)
         types['S'] = XS
         tmpls = [(), ('X',), ('S',), ('X', 'S'), ('S', 'X'), ('Y', 'X'), ('Y', 'S'), ('Y',)]
+    elif case['how'] == 'falsy_tags':
+        # tags re-assigned after construction to values that are falsy without being 0: they are not the tag 0
+        env = m.environment
+        agents = [Core.Agent(k, m) for k in ('zero', 'none', 'empty', 'fzero', 'one', 'false')]
+        for a, t in zip(agents, (0, None, '', 0.0, 1, False)):
+            a.tag = t
+        for a, ts in zip(agents, ('X', 'X', 'XY', 'Y', 'XY', 'X')):
+            for t in ts:
+                a.add_component(TYPES[t](a, m))
+        for a in agents:
+            env.add_agent(a)
+        tmpls = [(), ('X',), ('X', 'Y')]
+        tags = (None, 0, 1, '', 2)
+    elif case['how'] == 'many_types':
+        # 70 component types in one model; agents carrying types far apart in creation order, one of them taken off again
+        env = m.environment
+        many = [type(f'T{i}', (Core.Component,), {}) for i in range(70)]
+        for i, T in enumerate(many):
+            types[f'T{i}'] = T
+        agents = [Core.Agent(k, m, tag=i % 2) for i, k in enumerate(('all', 'a', 'b', 'c', 'd', 'e'))]
+        # ('all' carries every type, attached in creation order: whatever numbering the library keeps of the types it has
+        # seen, T0 and T64 are 64 apart in it)
+        for a, idx in zip(agents, (tuple(range(70)), (0, 64), (64,), (1, 65, 2), (), (63, 64, 65, 0))):
+            for i in idx:
+                a.add_component(many[i](a, m))
+        for a in agents:
+            env.add_agent(a)
+        agents[1].remove_component(many[0])
+        agents[5].remove_component(many[64])
+        agents[3].remove_component(many[1])
+        agents[0].remove_component(many[5])
+        tmpls = [(), ('T64',), ('T0',), ('T65',), ('T1',), ('T64', 'T65'), ('T65', 'T2'), ('T63', 'T0'), ('T0', 'T64')]
+    elif case['how'] == 'long_templates':
+        # templates of five and more entries, with and without repeated types
+        env = m.environment
+        agents = [Core.Agent(k, m, tag=i % 2) for i, k in enumerate(('xyz', 'xy', 'x', 'none', 'yz'))]
+        for a, ts in zip(agents, ('XYZ', 'XY', 'X', '', 'YZ')):
+            for t in ts:
+                a.add_component(TYPES[t](a, m))
+        for a in agents:
+            env.add_agent(a)
+        tmpls = [('X', 'Y', 'Z', 'Y', 'X'), ('X', 'Y', 'X', 'Y', 'X', 'Y'), ('Y', 'Y', 'Y', 'Y', 'Y'), ('X', 'Y', 'Z', 'X', 'Y', 'Z', 'X'),
+                 ('Z', 'Y', 'Z', 'Y', 'Z'), ('X', 'X', 'X', 'X', 'X', 'X', 'X', 'X', 'X')]
     elif case['how'] == 'compound_tags':
         # tags that are tuples (a species / role pair): a tag filter selects the agents with PRECISELY that tag
         env = m.environment
@@ -415,7 +458,7 @@ def special_population_case(case):
     real = m.random
     for tmpl in tmpls:
         targs = [types[t] for t in tmpl]
-        for tag in (tags if case['how'] == 'compound_tags' else (None, 0, 1, 'np1', 2)):
+        for tag in (tags if case['how'] in ('compound_tags', 'falsy_tags') else (None, 0, 1, 'np1', 2)):
             kw = {} if tag is None else {'tag': tag_value(tag)}
             exp = [a for a in agents if all(T in a.components for T in targs) and (tag is None or a.tag == tag_value(tag))]
             what = f'{case["how"]}: template {list(tmpl)} tag {tag}'
@@ -724,7 +767,8 @@ def run(ctx):
             ctx.report(case, v)
             return
     ctx.leg('class_churn_and_detached_env', cases=len(extra))
-    for how in ('class_component', 'odd_agents', 'derived_types', 'compound_tags', 'grid_unpositioned', 'space_unpositioned'):
+    for how in ('class_component', 'odd_agents', 'derived_types', 'compound_tags', 'falsy_tags', 'many_types', 'long_templates',
+                'grid_unpositioned', 'space_unpositioned'):
         case = {'leg': 'special_population', 'how': how}
         ctx.traces += 1
         try:
@@ -733,7 +777,7 @@ def run(ctx):
         except Violation as v:
             ctx.report(case, v)
             return
-    ctx.leg('special_population', cases=6)
+    ctx.leg('special_population', cases=9)
     for peak, keep in ((90, 12), (300, 20)) if not ctx.small else ((90, 12),):
         for leave in ('front_to_back', 'back_to_front'):
             case = {'leg': 'shrunk', 'peak': peak, 'keep': keep, 'leave': leave}
